@@ -124,3 +124,6 @@ func (p *StreamPool) VerifBuffered() (maxPages int) {
 	}
 	return
 }
+
+// VerifPageBytes is the number of bytes one page holds.
+const VerifPageBytes = pageBytes
